@@ -1,5 +1,5 @@
 (* Token-level entry point for property C18 (schema part).  Definitions only. *)
-From Erbium Require Import Lib.Base Model.Schema.
+From Erbium Require Import Lib.Base Model.Schema Model.DhcpPool Model.PoolEntry.
 
 Definition tok_ver (ts : list N) : option (option Z * list N) :=
   match ts with
@@ -126,5 +126,9 @@ Definition check_schema (ts : list N) : list N :=
 Definition check_C18 (ts : list N) : list N :=
   match ts with
   | 1 :: r => check_schema r
+  | 2 :: r => match check_pool 18 r with
+              | [0; mask] => [0; 100 + N.land mask 32]     (* 132: the history contained a restart *)
+              | v => v
+              end
   | _ => v_bad
   end.
